@@ -302,8 +302,18 @@ Definition step1 (fz : option nat) (m : machine) (o : op) : machine * out :=
           end
       | None => inv end
   | OClear r =>
+      (* the tables and the size are reset first, then every item and every
+         priority is dropped (user code: [Drop::drop], entry by entry); when
+         one of them panics the remaining ones are still dropped while
+         unwinding: the queue is empty either way *)
       match getreg m r with
-      | Some (k, s) => (setreg m r k (clear s), OutUnit) | None => inv end
+      | Some (k, s) =>
+          match clone_cbs (clear s) (length (smap s)) with
+          | Ok s' => (setreg m r k s', OutUnit)
+          | Unwound s' => (setreg m r k s', OutUnwound)
+          | Fault f => (m, OutFault f)
+          end
+      | None => inv end
   | OIntoSortedVec r sd =>
       (* consumes a clone *)
       match getreg m r, sd with
